@@ -67,11 +67,28 @@ def configs(tier, seed):
         Tq = T + (q if algo != "VHCT" else 0)
         out.append({"name": "iso-%s-B-otherargs-blocks-T%d" % (algo, Tq), "mode": "iso", "algo": algo, "other": algo, "other_params": OTHER_ARGS[algo],
                     "blocks": True, "part": "B", "d": 1, "T": Tq, "cost": 40})
+    # two live instances of DIFFERENT classes, block schedule (B runs k rounds, A all, B the rest; k = 0, T/2, T), integer arguments
+    # aligned (a budget of one equals a round number the other reaches): state shared across classes through a common base
+    # class, module or helper and keyed by bare numbers (seed S-C14-6: one memo table for t+ and for the harmonic sum)
+    for a, b, T in CROSS_PAIRS:
+        Tq = T + q
+        out.append({"name": "iso-%s-vs-%s-B-aligned-blocks-T%d" % (a, b, Tq), "mode": "iso", "algo": a, "params": aligned_args(a, Tq), "other": b,
+                    "other_params": aligned_args(b, Tq), "blocks": True, "block_positions": [0, Tq // 2, Tq], "part": "B", "d": 1, "T": Tq, "cost": 60})
     for algo, T in T_DET.items():
         Tq = T + q + (3 if algo in ("SequOOL", "StoSOO", "SOO") else 0)
         out.append({"name": "reuse-%s-B-T%d" % (algo, Tq), "mode": "reuse", "algo": algo, "part": "B", "d": 1, "T": Tq, "cost": Tq * 4})
     out.append({"name": "twin-det", "mode": "det", "algo": "T_HOO", "part": "B", "d": 1, "T": 2, "twin": True, "expect_fail": "twin"})
     return out
+
+
+CROSS_PAIRS = [("HCT", "SequOOL", 6), ("SequOOL", "HCT", 6), ("T_HOO", "SOO", 6), ("SOO", "T_HOO", 6), ("HCT", "DOO", 6), ("StoSOO", "HCT", 6), ("Zooming", "HCT", 4),
+               ("SequOOL", "StroquOOL", 6), ("SOO", "SequOOL", 7), ("POO", "SequOOL", 6), ("GPO", "HCT", 6), ("DOO", "StoSOO", 6)]
+
+
+def aligned_args(algo, T):
+    """constructor arguments whose integers coincide with round numbers reached in a run of T rounds"""
+    return {"T_HOO": {"rounds": T}, "SequOOL": {"n": T}, "SOO": {"n": T, "h_max": T}, "DOO": {"n": T}, "StoSOO": {"n": T, "k": 2, "h_max": T},
+            "StroquOOL": {"n": 100 + T}}.get(algo, {})
 
 
 OTHER_ARGS = {
@@ -236,14 +253,20 @@ def run(ctx, cfg):
     else:
         dom_b = sym_box(ctx, d)  # the second instance lives on its own box
     snap_b = snapshot(dom_b)
+    # each reference run starts from the import-time content of every module / class level data attribute of the PyXAB
+    # modules ("alone in a fresh process"): otherwise a table shared by both classes would already be filled by the first
+    # reference run and the interleaved run would merely agree with a corrupted reference (seed S-C14-6)
+    shims.restore_state()
     solo_a = one_run(ctx, cfg, dom, rewards, T)
+    shims.restore_state()
     solo_b = one_run(ctx, cfg_b, dom_b, rb, T)
+    shims.restore_state()
     A = build(ctx, cfg, dom)
     B = build(ctx, cfg_b, dom_b)
     ia = ib = 0
     pa, pb = [], []
     trace = []
-    kb = ctx.choose(T + 1, "B_first") if cfg.get("blocks") else None
+    kb = ctx.choose(T + 1, "B_first", allowed=cfg.get("block_positions")) if cfg.get("blocks") else None
     while ia < T or ib < T:
         if kb is not None:
             who = 1 if (ib < kb or ia >= T) else 0
